@@ -142,10 +142,17 @@ class Formatter(FormatterInterface):
         lhs = self(oper.lhs)
         rhs = self(oper.rhs)
 
+        # Python chains comparison operators ("a < b == c" means
+        # "a < b and b == c"), so == and != must parenthesise operands
+        # like the relational operators do
+        precedence = oper.precedence
+        if isinstance(oper, (L.EQ, L.NE)):
+            precedence = L.PRECEDENCE.LT
+
         # Apply parentheses
-        if oper.lhs.precedence >= oper.precedence:
+        if oper.lhs.precedence >= precedence:
             lhs = f"({lhs})"
-        if oper.rhs.precedence >= oper.precedence:
+        if oper.rhs.precedence >= precedence:
             rhs = f"({rhs})"
 
         # Return combined string
